@@ -82,6 +82,13 @@ def _side(max_side: int, rare_unit: bool = False):
 @st.composite
 def s_affine_box(draw, max_side: int = 40, rare_unit: bool = False):
     coeffs, fam, klass = draw(affines(rotated=draw(st.booleans())))
+    if draw(st.integers(0, 7)) == 0:
+        # sub-metre imagery registered in degrees: pixels of ~1e-5 units next to coordinates of ~1e2
+        k = 2.0 ** draw(st.sampled_from([-17, -16, -18]))
+        m = max(abs(coeffs[0]), abs(coeffs[1]), abs(coeffs[3]), abs(coeffs[4]))
+        k = k / (2.0 ** round(math.log2(m))) if m > 0 else k
+        coeffs = [coeffs[0] * k, coeffs[1] * k, math.fmod(coeffs[2], 256.0), coeffs[3] * k, coeffs[4] * k, math.fmod(coeffs[5], 64.0)]
+        klass = (klass + "+tiny_px") if klass else "tiny_px"
     return {
         "kind": "affine",
         "shape": [draw(_side(max_side, rare_unit)), draw(_side(max_side, rare_unit))],
